@@ -1300,7 +1300,8 @@ class PathWalker:
                 self.expr(e, conds, env)
                 ee = strip_refs(e)
                 if ee.get('k') == 'if' and 'else' not in ee and always_diverges(ee['then']):
-                    conds = conds + (('if', ee['cond'], False, dict(env)),)
+                    fc_ = bool_helper_conds(self.facts, ee['cond'], False, env)
+                    conds = conds + (fc_ if fc_ is not None else (('if', ee['cond'], False, dict(env)),))
                 elif ee.get('k') == 'if' and 'else' in ee:
                     if always_diverges(ee['then']) and not always_diverges(ee['else']):
                         conds = conds + (('if', ee['cond'], False, dict(env)),)
@@ -1327,9 +1328,11 @@ class PathWalker:
                 if 'else' in e:
                     self.expr(e['else'], conds + (('let', cc['pat'], cc['init'], False),), env)
             else:
-                self.expr(e['then'], conds + (('if', c, True, dict(env)),), env)
+                tc_ = bool_helper_conds(self.facts, c, True, env)
+                self.expr(e['then'], conds + (tc_ if tc_ is not None else (('if', c, True, dict(env)),)), env)
                 if 'else' in e:
-                    self.expr(e['else'], conds + (('if', c, False, dict(env)),), env)
+                    fc_ = bool_helper_conds(self.facts, c, False, env)
+                    self.expr(e['else'], conds + (fc_ if fc_ is not None else (('if', c, False, dict(env)),)), env)
         elif k == 'match':
             self.expr(e['scrut'], conds, env)
             pats = [a['pat'] for a in e['arms']]
@@ -1775,6 +1778,64 @@ def checked_value_of_call(facts, call, env):
 
 
 
+def bool_helper_conds(facts, cond, want, env):
+    """the path conditions under which `[!]helper(args)[?]` evaluates to `want`, when the private helper returns
+    bool / Result<bool, _> and exactly one of its exits yields that literal (`fn store(..) -> Result<bool, Error>` with
+    `return Ok(false)` under `self.received[pos]`): the conditions of that exit in the caller's terms; None otherwise"""
+    if facts is None or not isinstance(cond, dict):
+        return None
+    c = strip_refs(cond)
+    while c.get('k') == 'un' and c.get('op') in ('Not', '!'):
+        want = not want
+        c = strip_refs(c['x'])
+    call = c
+    if c.get('k') == 'match' and str(c.get('source', '')).startswith('TryDesugar'):
+        sc = c.get('scrut', {})
+        if not (sc.get('k') == 'call' and isinstance(sc.get('f'), dict) and (sc['f'].get('path') or '').endswith('Try::branch') and len(sc.get('args', [])) == 1):
+            return None
+        call = strip_refs(sc['args'][0])
+    pc = private_callee(facts, call)
+    if pc is None:
+        return None
+    g, args = pc
+    out_ty = g.output or ''
+    if not (out_ty == 'bool' or re.match(r'^std::result::Result<bool, ', out_ty)):
+        return None
+    from .c05 import subst_hir
+    _EXIT_SHIFT[0] += 1
+    shift = 10000000 * (_EXIT_SHIFT[0] % 200 + 1)
+    body = subst_hir(g.hir['value'], {pt['id']: a for pt, a in zip(g.hir['params'], args)}, shift)
+    sel = []
+    for (x, conds, e2) in fn_exits(g, True, 1, body):
+        x0 = strip_refs(x) if isinstance(x, dict) else {}
+        v = None
+        if out_ty == 'bool':
+            v = x0
+        else:
+            pth = x0['f'].get('path') if x0.get('k') == 'call' and isinstance(x0.get('f'), dict) else None
+            if pth and pth.endswith('::Err'):
+                continue
+            if pth and pth.endswith('::Ok') and len(x0.get('args', [])) == 1:
+                v = strip_refs(x0['args'][0])
+            elif x0.get('k') == 'match' and str(x0.get('source', '')).startswith('TryDesugar'):
+                continue        # `inner()?;` as a tail cannot occur for a bool payload; a propagated error is an Err exit
+        if not (isinstance(v, dict) and v.get('k') == 'lit' and 'bool' in v):
+            return None
+        if bool(v['bool']) == want:
+            sel.append((conds, e2))
+    if len(sel) != 1:
+        return None
+    conds, e2 = sel[0]
+    c3 = []
+    for cd in conds:
+        if cd[0] == 'if':
+            e3 = dict(env)
+            e3.update(cd[3] if len(cd) > 3 else {})
+            cd = ('if', cd[1], cd[2], e3)
+        c3.append(cd)
+    return tuple(c3)
+
+
 def fn_exits(fn, delegate=True, _depth=0, _body=None):
     """[(value expr node, conds, env)] for every way fn can return a value.  An exit whose value is the call of a
     private helper (`return check(x)` / tail `check(x)`) is replaced by the helper's own exits, parameters
@@ -1958,6 +2019,50 @@ def _thread_try(blocks, d, cont, region):
                   'ops': [{'copy': {'l': d, 'p': []}}]}          # the residual carries the error of `_d`
         c2 = {'cleanup': False, 'stmts': [{'k': 'assign', 'lhs': cdest, 'rv': rv, 'line': line, 'exp': False, 'threaded': kind}] + list(sw['stmts']),
               'term': {'k': 'goto', 'target': tg[0 if kind == 'Ok' else 1], 'line': line, 'exp': False, 'threaded': kind}}
+        if kind == 'Ok' and isinstance(payload, dict) and isinstance(payload.get('const'), dict) and payload['const'].get('val') in (0, 1, True, False) \
+                and str(payload['const'].get('ty')) == 'bool':
+            # `if !helper(..)? { .. }` on a literal `Ok(true)` / `Ok(false)`: the test on the payload is resolved too
+            tb = blocks[tg[0]]
+            known = {}
+            okk = True
+            for x in tb['stmts']:
+                if x['k'] in ('storage_live', 'storage_dead', 'nop'):
+                    continue
+                if x['k'] == 'assign' and not x['lhs']['p']:
+                    r_ = x['rv']
+                    pl_ = op_place(r_['op']) if r_.get('k') == 'use' else None
+                    if pl_ is not None and pl_['l'] == cdest['l'] and len(pl_['p']) == 2 and isinstance(pl_['p'][0], dict) and 'down' in pl_['p'][0] \
+                            and isinstance(pl_['p'][1], dict) and str(pl_['p'][1].get('f')) == '0':
+                        known[x['lhs']['l']] = bool(payload['const']['val'])
+                        continue
+                    if pl_ is not None and not pl_['p'] and pl_['l'] in known:
+                        known[x['lhs']['l']] = known[pl_['l']]
+                        continue
+                    if r_.get('k') == 'un' and r_.get('op') == 'Not' and op_place(r_.get('a', {})) and not op_place(r_['a'])['p'] and op_place(r_['a'])['l'] in known:
+                        known[x['lhs']['l']] = not known[op_place(r_['a'])['l']]
+                        continue
+                okk = False
+                break
+            tt = tb['term']
+            dpl = op_place(tt['discr']) if tt['k'] == 'switch' else None
+            def used_elsewhere(locs):
+                def has(n):
+                    if isinstance(n, dict):
+                        if 'l' in n and 'p' in n and n['l'] in locs:
+                            return True
+                        return any(has(v) for v in n.values())
+                    if isinstance(n, list):
+                        return any(has(v) for v in n)
+                    return False
+                return any(has(ob_) for ob_ in blocks if ob_ is not tb and not ob_.get('threaded_payload'))
+            # (only a value consumed on the spot: a named flag tested again later keeps its single definition)
+            if okk and dpl is not None and not dpl['p'] and dpl['l'] in known and len(tt['targets']) == 1 and tt['targets'][0][0] == 0 \
+                    and not used_elsewhere(set(known)):
+                val = known[dpl['l']]
+                t2 = {'cleanup': False, 'stmts': list(tb['stmts']), 'threaded_payload': True,
+                      'term': {'k': 'goto', 'target': tt['otherwise'] if val else tt['targets'][0][1], 'line': tt['line'], 'exp': False, 'threaded': 'payload'}}
+                blocks.append(t2)
+                c2['term']['target'] = len(blocks) - 1
         blocks.append(c2)
         return len(blocks) - 1
 
@@ -2001,6 +2106,11 @@ def _thread_try(blocks, d, cont, region):
                 kind = rv.get('variant') if (rv.get('k') == 'agg' and rv.get('adt') == 'std::result::Result') else None
                 payload = rv['ops'][0] if kind and rv.get('ops') else None
         if kind in ('Ok', 'Err') and payload is not None and reaches_cont(bb['term']['target']):
+            ppl = op_place(payload)
+            if ppl is not None and not ppl['p']:
+                for x in bb['stmts']:
+                    if x['k'] == 'assign' and x['lhs'] == {'l': ppl['l'], 'p': []} and x['rv'].get('k') == 'use' and 'const' in x['rv']['op']:
+                        payload = x['rv']['op']
             if 'move' in payload:
                 payload = {'copy': payload['move']}
             bb['term'] = dict(bb['term'], target=via_chain(bb['term']['target'], copy_pair(kind, payload)), threaded_from=bb['term']['target'])
